@@ -7,10 +7,10 @@ from core import run_cases
 TRIGGERS = {"lt-is-le": "lt-is-le"}
 
 
-def run_interp_cases(check, cases, what, owns):
+def run_interp_cases(check, cases, what, owns, fn="case_spec"):
     """`owns`: which S-violations belong to this property (list of substrings of the `what` text);
     other differences from S are left to the property that owns them (attribution, DESIGN 2.7)"""
-    results = run_cases("interp_suite", "case_spec", cases, chunk=16)
+    results = run_cases("interp_suite", fn, cases, chunk=16)
     stats = {"model_agrees": 0, "model_unmodelled": 0, "spec_judged": 0, "spec_outside_core": 0, "real_errors": 0}
     for res in results:
         if "infra_error" in res:
